@@ -18,7 +18,7 @@ loaded ooaofooa population (setattr / relate / unrelate).  Entry points: `mk_com
 file out, re-loaded with `xtuml.ModelLoader`).
 
   D  the definitions built (before and after the edits; canonical form: classes by key letters,
-     identifiers by number, associations by relationship number / source class, key PAIRS sorted)
+     identifiers by number, associations by relationship number and then by content, key PAIRS sorted)
      equal the specification `ooa_encoder.py_extract` of the (edited) diagram — so an edit changes exactly
      the corresponding part; an unknown component name raises OoaOfOoaException; the SQL written by
      gen_sql_schema / xtuml.serialize_schema + serialize_unique_identifiers loads back to the same
